@@ -12,6 +12,7 @@ import re
 
 from .. import tlc
 from ..tlaparse import parse_value, to_json
+from .. import prepleg
 from . import racecommon as rc
 
 CLAUSES = {"FaultNeverSuccess", "NoResultsOnFailure", "CancelNoResults", "FaultReported"}
@@ -46,7 +47,7 @@ def run(ctx, out):
         "TLC counterexamples of the pinned/known-deviation model variants (trap schedules), seeded random schedules with random fault placement."
     )
     out.assumptions = [
-        "Thespian semantics as reproduced by harness/simactor.py; the mechanic is a stub actor answering EngineStarted/EngineStopped; the track preparation phase is a stub (its failure path is not modelled)",
+        "Thespian semantics as reproduced by harness/simactor.py; the mechanic is a stub actor answering EngineStarted/EngineStopped; in the race legs the track preparation phase is a stub (its failure path is the subject of the prep leg)",
         "at most one fault per race; a worker death counts as 'during the race' while that worker has not yet reported the last join point",
         "'in bounded time' is decided as: under fair scheduling the failure reaches race control (liveness in the model; on the real code: reported before the recorded race can make no further progress). Each hop costs at most one wake-up interval (0.5-5 s).",
         "results stored = race.json of the scratch FileRaceStore contains 'results' or reporter.summarize was called",
@@ -86,7 +87,11 @@ def run(ctx, out):
     some = index[sorted(index)[1]]
     out.sample({"scenario": some[0]["scn"], "fault": some[0].get("fault"), "decisions": [(e["ev"], e["arg"]) for e in some[1]["events"]][:50], "replies": some[1]["events"][-1]["st"]["rcst"]["replies"]})
     out.note("leg C2S: %d races (%d with the fault fired), %d traces accepted by TLC" % (len(jobs), stats.get("faults_fired", 0), out.traces_validated))
+    # ---- prep leg: a track preparation task fails (specs/TrackPrep)
+    prepleg.run_prep_leg(ctx, out)
 
 
 def replay(ctx, case):
+    if case.get("leg") == "prep":
+        return prepleg.replay_case(ctx, case)
     return rc.replay_case(ctx, case, CLAUSES, "C09")
